@@ -191,6 +191,128 @@ Proof.
   - eexists. split; [vm_compute; reflexivity|]. vm_compute. repeat split; reflexivity.
 Qed.
 
+(* ---- transient store read failures ---------------------------------------------------------------------------
+   [AResumeReadFail t]: the store read of the region request [t] runs next fails with a transient error (not "not
+   found"): the key lookup ("ik.taken"), the reference lookup ("ref.taken"), GetTransaction of a revert
+   ("revert.taken") or of a metadata write on a transaction ("ik.lookup"), the account-metadata reads of
+   ResolveResources ("ik.lookup" / "ref.lookup" of a create, answered [ECompilationFailed]), the balance reads under the
+   account locks ("locked"). All the theorems above range over these actions too ([reachable] is larger). *)
+
+(* a request answered [EStoreRead] / [ECompilationFailed] has finished, built no entry, owns no entry anywhere -- on
+   disk, in the batcher queue, in the batch being written -- and is not inside the append critical section
+   (E1Thms.e1_error_no_trace_anywhere: the same for EVERY error class) *)
+Theorem C06_read_failed_no_trace : forall s t th, reachable s -> get_thread (threads s) t = Some th ->
+  (t_resp th = Some (RErr EStoreRead) \/ t_resp th = Some (RErr ECompilationFailed)) ->
+  t_entry th = None /\ t_pc th = PFinished /\
+  (forall e, In e (persisted s) -> e_owner e <> t) /\
+  (forall e, In e (v_pending s) -> e_owner e <> t) /\
+  (forall b e, v_batch s = Some b -> In e b -> e_owner e <> t) /\
+  v_cs s <> Some t.
+Proof. exact e1_read_failed_no_trace. Qed.
+Print Assumptions C06_read_failed_no_trace.
+
+(* the step itself writes nothing, hands nothing to the batcher, publishes nothing, leaves the head of the chain and
+   the transaction counter alone. Either the request failed -- it is answered an error, has finished without an entry,
+   and its idempotency key is free afterwards -- or it is exactly the SaveMeta whose read error the code ignores (only
+   its pc moves: see [C06_savemeta_ignores_read_failure]).
+   "Its key is free afterwards" does NOT hold when GetTransaction of a revert fails at [PRevTaken]: the revert has not
+   taken its key yet and releases none, so the key may be reserved -- by somebody else
+   ([C06_read_failed_revert_key_witness]); there the key table is untouched. *)
+Theorem C06_read_failed_step : forall s t s', reachable s -> step s (AResumeReadFail t) = Some s' ->
+  persisted s' = persisted s /\ v_pending s' = v_pending s /\ v_batch s' = v_batch s /\
+  published s' = published s /\ v_last s' = v_last s /\ v_lasttx s' = v_lasttx s /\
+  exists th th', get_thread (threads s) t = Some th /\ get_thread (threads s') t = Some th' /\
+   ((* the request failed: *)
+    (exists err, t_resp th' = Some (RErr err) /\ t_pc th' = PFinished /\ t_entry th' = None /\
+       (t_pc th <> PRevTaken -> rq_ik (t_req th) <> 0%N -> ~ In (rq_ik (t_req th)) (v_iks s')) /\
+       (t_pc th = PRevTaken -> v_iks s' = v_iks s))
+    \/ (* or it is the SaveMeta whose read error the code ignores: *)
+    (rq_kind (t_req th) = KSaveMeta /\ t_pc th = PIkLookup None /\ t_resp th' = None)).
+Proof. exact e1_read_failed_step. Qed.
+Print Assumptions C06_read_failed_step.
+
+(* case by case. [rf_flags th] (E1Thms.v) = (error class, key released, reference released, revert reservation released):
+     PRevTaken                 -> (EStoreRead,         false, false, true)     GetTransaction of the revert
+     PIkTaken                  -> (EStoreRead,         true,  false, true)     the key lookup
+     PRefTaken                 -> (EStoreRead,         true,  true,  true)     the reference lookup
+     PIkLookup None, KCreate   -> (ECompilationFailed, true,  false, true)     ResolveResources (no reference)
+     PIkLookup None, KDelMeta  -> (ENotFound,          true,  false, false)    DeleteMetadata: any error = not found
+     PRefLookup false          -> (ECompilationFailed, true,  true,  true)     ResolveResources
+     PLocked                   -> (EStoreRead,         true,  true,  true)     ResolveBalances, after the unlock
+   a released reservation is not in its table afterwards, a table whose flag is false is unchanged; except at [PLocked]
+   the lock table and the queue are unchanged; [v_cs] is unchanged. The SaveMeta case: only the pc of the request moves
+   (to the wait of a preview, else to the entry of the append critical section). *)
+Theorem C06_read_failed_step_fine : forall s t s', reachable s -> step s (AResumeReadFail t) = Some s' ->
+  persisted s' = persisted s /\ v_pending s' = v_pending s /\ v_batch s' = v_batch s /\
+  published s' = published s /\ v_last s' = v_last s /\ v_lasttx s' = v_lasttx s /\ v_cs s' = v_cs s /\
+  exists th th', get_thread (threads s) t = Some th /\ get_thread (threads s') t = Some th' /\
+   ((exists err ri rf rv, rf_flags th = Some (err, ri, rf, rv) /\
+       t_resp th' = Some (RErr err) /\ t_pc th' = PFinished /\ t_entry th' = None /\
+       (if ri then rq_ik (t_req th) <> 0%N -> ~ In (rq_ik (t_req th)) (v_iks s') else v_iks s' = v_iks s) /\
+       (if rf then rq_ref (t_req th) <> 0%N -> ~ In (rq_ref (t_req th)) (v_refs s') else v_refs s' = v_refs s) /\
+       (if rv then rq_kind (t_req th) = KRevert -> ~ In (rq_revert (t_req th)) (v_revs s') else v_revs s' = v_revs s) /\
+       (t_pc th <> PLocked -> v_locks s' = v_locks s /\ v_queue s' = v_queue s))
+    \/ (rq_kind (t_req th) = KSaveMeta /\ t_pc th = PIkLookup None /\ t_resp th' = None /\ t_entry th' = None /\
+        t_pc th' = (if rq_dry (t_req th) then PWait else PAppendEnter) /\
+        v_iks s' = v_iks s /\ v_refs s' = v_refs s /\ v_revs s' = v_revs s /\
+        v_locks s' = v_locks s /\ v_queue s' = v_queue s)).
+Proof. exact e1_read_failed_step_fine. Qed.
+Print Assumptions C06_read_failed_step_fine.
+
+(* why the key clause of [C06_read_failed_step] excludes [PRevTaken] (E1V0.sched_rev_readfail): request 1 holds key 8
+   (parked at "ik.taken"); revert 4 carries key 8 too and its GetTransaction fails before it tried to take the key: 4
+   is answered [RErr EStoreRead], its revert reservation is released, and key 8 is still in the table -- it is 1's *)
+Example C06_read_failed_revert_key_witness :
+  exists s, run init sched_rev_readfail = Some s /\
+    map (fun p => (fst p, t_pc (snd p), t_resp (snd p))) (threads s) =
+      [(0, PFinished, Some (ROk (Some 0))); (1, PIkTaken, None); (4, PFinished, Some (RErr EStoreRead))] /\
+    v_iks s = [8%N] /\ v_revs s = [] /\ map e_owner (persisted s) = [0].
+Proof. eexists. split; [vm_compute; reflexivity|]. vm_compute. repeat split; reflexivity. Qed.
+
+(* FINDING (a witness, not a violation of C06: the write is acknowledged AND persisted). SaveMeta (key 5) on the MISSING
+   transaction 7 of a ledger whose only transaction is 0 (E1V0.sched_sm_notfound / sched_sm_readfail / sched_dm_readfail):
+   (i) GetTransaction answers "not found" (plain [AResume]): refused [RErr ENotFound], nothing written, no event;
+   (ii) the same read FAILS ([AResumeReadFail]): SaveMeta only looks for the not-found error and ignores any other, the
+   request goes on, its metadata entry is written (second entry on disk, owner 3, key 5), it is acknowledged [ROk None]
+   and an event is published -- metadata saved on a transaction that does not exist;
+   (iii) DeleteMetadata in the same situation treats every error as "not found": [RErr ENotFound], nothing written. *)
+Example C06_savemeta_ignores_read_failure :
+  (exists s, run init sched_sm_notfound = Some s /\
+     map (fun p => (fst p, t_resp (snd p))) (threads s) = [(0, Some (ROk (Some 0))); (3, Some (RErr ENotFound))] /\
+     map e_owner (persisted s) = [0] /\ map ev_tid (published s) = [0] /\ v_iks s = []) /\
+  (exists s, run init sched_sm_readfail = Some s /\
+     map (fun p => (fst p, t_resp (snd p))) (threads s) = [(0, Some (ROk (Some 0))); (3, Some (ROk None))] /\
+     map (fun e => (e_owner e, e_kind e, e_ik e, e_txid e)) (persisted s) =
+       [(0, KCreate, 0%N, Some 0); (3, KSaveMeta, 5%N, None)] /\
+     find_tx (persisted s) 7 = None /\ map ev_tid (published s) = [0; 3] /\ v_iks s = []) /\
+  (exists s, run init sched_dm_readfail = Some s /\
+     map (fun p => (fst p, t_resp (snd p))) (threads s) = [(0, Some (ROk (Some 0))); (3, Some (RErr ENotFound))] /\
+     map e_owner (persisted s) = [0] /\ map ev_tid (published s) = [0] /\ v_iks s = []).
+Proof.
+  split; [|split]; (eexists; split; [vm_compute; reflexivity|]); vm_compute; repeat split; reflexivity.
+Qed.
+
+(* non-vacuity (E1V0.sched_readfail_locked / sched_readfail_done): request 1 holds the locks of accounts 1, 2 at
+   "locked", request 2 (key 7, reference 9) is queued behind it; the balance read of 1 fails: 1 is answered
+   [RErr EStoreRead], nothing of it is on disk, its locks are released and the re-check GRANTS 2 ([t_granted], the
+   lock table now holds 2's entry, the queue is empty); 2 then completes: [ROk (Some 1)], disk owners [0; 2], events
+   of 0 and 2 only, every table empty *)
+Example C06_read_failure_example :
+  (exists s0, run init sched_readfail_locked = Some s0 /\
+     map (fun p => (fst p, t_pc (snd p), t_resp (snd p), t_granted (snd p))) (threads s0) =
+       [(0, PFinished, Some (ROk (Some 0)), false); (1, PFinished, Some (RErr EStoreRead), false);
+        (2, PEnqueued, None, true)] /\
+     map e_owner (persisted s0) = [0] /\ v_pending s0 = [] /\ v_batch s0 = None /\
+     v_locks s0 = [(2, [1%N; 3%N], [1%N])] /\ v_queue s0 = [] /\ v_iks s0 = [7%N] /\ v_refs s0 = [9%N]) /\
+  exists s, run init sched_readfail_done = Some s /\
+    map (fun p => (fst p, t_resp (snd p))) (threads s) =
+      [(0, Some (ROk (Some 0))); (1, Some (RErr EStoreRead)); (2, Some (ROk (Some 1)))] /\
+    map e_owner (persisted s) = [0; 2] /\ map ev_tid (published s) = [0; 2] /\
+    v_iks s = [] /\ v_refs s = [] /\ v_locks s = [] /\ v_queue s = [].
+Proof.
+  split; (eexists; split; [vm_compute; reflexivity|]); vm_compute; repeat split; reflexivity.
+Qed.
+
 (* ... and holds no account lock and no place in the lock queue, in this and every later state (lock / queue hygiene
    invariant of Engine/E5Lock.v, stated in Properties/C02_cancel.v: table and queue entries belong to unfinished
    requests). Together with [C06_cancelled_no_trace] (no entry on disk, in the batcher or being built, not in the append
@@ -206,3 +328,16 @@ Proof.
       (proj1 (proj2 (e1_cancelled_no_trace s t th R G E)))).
 Qed.
 Print Assumptions C06_cancelled_holds_no_lock.
+
+(* the same for a request answered [EStoreRead] / [ECompilationFailed] (at "locked" the step releases the account locks
+   itself, [unlock]; at the other pcs none is held yet): no place in the lock queue, no lock-table entry, in this and
+   every later state *)
+Theorem C06_read_failed_holds_no_lock : forall s t th, reachable s -> get_thread (threads s) t = Some th ->
+  (t_resp th = Some (RErr EStoreRead) \/ t_resp th = Some (RErr ECompilationFailed)) ->
+  ~ In t (v_queue s) /\ (forall h, In h (v_locks s) -> fst (fst h) <> t).
+Proof.
+  exact (fun s t th R G E =>
+    E5Lock.e5_finished_holds_no_lock s t th (E5Lock.e5_reachable_inv s R) G
+      (proj1 (proj2 (e1_read_failed_no_trace s t th R G E)))).
+Qed.
+Print Assumptions C06_read_failed_holds_no_lock.
